@@ -137,3 +137,7 @@ def run(ctx, eng):
                'the per-stream frame-size cache that slices header blocks '
                'is the peer\'s current limit on every stream (otherwise '
                'the post-append assertion fires in a public call)')
+    cm.include(ctx, eng, 'C03', {'ARITH.assert', 'ARITH.guard', 'FLOW.min'},
+               'the assertions after the window decrements of send_data can '
+               'only hold because the guard refuses every amount above the '
+               'true (possibly negative) minimum of the two windows')
